@@ -235,9 +235,10 @@ def run(tier):
             chosen.append(b)
     # 2. exhaustive model checking, concurrently with the replay
     cfgs = ["MC_ProposalWindow_12_5u.cfg", "MC_ProposalWindow_24_5u.cfg", "MC_ProposalWindow_24_6.cfg"] if quick else \
-        ["MC_ProposalWindow_12_6u.cfg", "MC_ProposalWindow_24_6u.cfg", "MC_ProposalWindow_24_7.cfg", "MC_ProposalWindow_12_7.cfg"]
-    pool = cf.ThreadPoolExecutor(max_workers=2)
-    tl = [(cfg, pool.submit(V.tlc, PID, "MC_ProposalWindow", cfg, workers=4, timeout=200 if quick else 1300, xmx="8g"))
+        ["MC_ProposalWindow_12_5u.cfg", "MC_ProposalWindow_24_5u.cfg", "MC_ProposalWindow_24_6.cfg", "MC_ProposalWindow_12_6.cfg",
+         "MC_ProposalWindow_24_7.cfg", "MC_ProposalWindow_12_7.cfg"]
+    pool = cf.ThreadPoolExecutor(max_workers=2 if quick else 3)
+    tl = [(cfg, pool.submit(V.tlc, PID, "MC_ProposalWindow", cfg, workers=4, timeout=220 if quick else 1200, xmx="8g"))
           for cfg in cfgs]
     # 3. R
     tot = {}
